@@ -275,6 +275,16 @@ MUTATORS = ("set", "add", "replace", "append", "prepend", "cas", "delete", "incr
             "setitem", "delitem", "delete_many", "gat", "gats")
 
 
+class _Lazy:
+    """a description that is only put together when it is printed (a history of thousands of steps is not formatted at every step)"""
+
+    def __init__(self, f):
+        self.f = f
+
+    def __str__(self):
+        return self.f()
+
+
 def run_history(case):
     kind, cfg, steps = case["kind"], case["cfg"], case["steps"]
     env = Env(cas_start=cfg.get("cas_start", 0), **({"now": cfg["now"]} if cfg.get("now") is not None else {}))
@@ -356,7 +366,8 @@ def run_history(case):
                     raise Violation(["wrong-key-spelling", op], "called with bytes keys, the answer %r is keyed otherwise: step %d %r of history %r spelling %r (%s, cfg %r)"
                                     % (res[1], i, r, desc_hist, spell, kind, cfg))
                 res = ("ok", {k.decode(): v for k, v in res[1].items()} if isinstance(res[1], dict) else [k.decode() for k in res[1]])
-        what = "step %d %r of history %r (%s, cfg %r%s)" % (i, r, desc_hist, kind, cfg, ", keys spelled as bytes in steps %r" % [j for j in range(len(steps)) if spell[j % len(spell)]] if spell else "")
+        what = _Lazy(lambda i=i, r=r: "step %d %r of history %r (%s, cfg %r%s)" % (
+            i, r, desc_hist[:i + 1], kind, cfg, ", keys spelled as bytes in steps %r" % [j for j in range(len(steps)) if spell[j % len(spell)]] if spell else ""))
         if want[0] == "exc":
             if not (res[0] == "exc" and isinstance(res[1], want[1])):
                 raise Violation(["wrong-outcome", op], "expected %s, got %r: %s" % (want[1].__name__, res, what))
@@ -644,7 +655,7 @@ def _drop_none_noreply(case):
 def soak_cases(tier, seed):
     """long lives: thousands of calls on one object (what a long-running process does in a minute), and clocks far from today's -
     a wall clock just before and after 2**31 and 2**32 seconds, and one that reads almost nothing"""
-    n = 2500 if tier == "quick" else 10000
+    n = 2500 if tier == "quick" else 6000
     for ki, kind in enumerate(("client", "pooled", "hash", "hash-pooled")):
         for now in (None, 2 ** 31 - 40, 2 ** 32 - 40, 4 * 10 ** 9, 0.5):
             x = (seed * 7919 + ki * 104729 + int((now or 0) % 1000) + 1) & 0x7FFFFFFF
